@@ -174,6 +174,11 @@ func (m *Matrix) validatePermutation(p MatrixPermutation) error {
 
 	// Check if the permutation matches any adjustment.
 	for _, adj := range m.Adjustments {
+		if adj == nil {
+			// `adjustments: [null]` parses to a nil adjustment: it has no
+			// values at all, so it is malformed.
+			return fmt.Errorf("%w: adjustment is null", errAdjustmentLengthMismatch)
+		}
 		// Ensure adj.With has the same size and dimension names as m.Setup.
 		// adj.With is a map so no need to check for repetition.
 		// Because adjustments can introduce new dimension values, only the
